@@ -27,7 +27,7 @@ def run(ctx):
                        "(model result must equal the wheel's result, and no recorded address may be live in the model). Property on "
                        "the implementation: the decoded result equals the source tree for every kind.")
     ctx.proofs()
-    ok = ctx.build()
+    ok = ctx.build(variants=())      # the Rust harness is not needed: the implementation side is the wheel
     okw = pywheel.build(ctx)
     if not (ok and okw):
         return
